@@ -37,6 +37,7 @@ const (
 	akSlice
 	akTuple
 	akStruct
+	akClosure
 )
 
 type aobj struct {
@@ -56,6 +57,8 @@ type av struct {
 	hi       int
 	tup      []av
 	emptyStr bool // bytes: the constant empty string
+	clo      *ssa.Function // closure: the function literal ...
+	cbind    []av          // ... and the values of its free variables
 }
 
 type acfg struct {
@@ -132,6 +135,11 @@ func zeroOf(t types.Type) av {
 
 // call interprets fn on abstract arguments and returns its results.
 func (it *ainterp) call(fn *ssa.Function, args []av, depth int) []av {
+	return it.callBound(fn, args, nil, depth)
+}
+
+// callBound interprets fn with the given arguments and, for a function literal, the values of its free variables.
+func (it *ainterp) callBound(fn *ssa.Function, args []av, bind []av, depth int) []av {
 	if it.err != "" {
 		return nil
 	}
@@ -143,6 +151,11 @@ func (it *ainterp) call(fn *ssa.Function, args []av, depth int) []av {
 	for i, pa := range fn.Params {
 		if i < len(args) {
 			env[pa] = args[i]
+		}
+	}
+	for i, fv := range fn.FreeVars {
+		if i < len(bind) {
+			env[fv] = bind[i]
 		}
 	}
 	val := func(v ssa.Value) av {
@@ -162,7 +175,12 @@ func (it *ainterp) call(fn *ssa.Function, args []av, depth int) []av {
 				return av{k: akBytes, emptyStr: true}
 			}
 			return av{k: akUnknown}
-		case *ssa.Global, *ssa.Function, *ssa.Builtin:
+		case *ssa.Function:
+			if c.Blocks != nil && len(c.FreeVars) == 0 {
+				return av{k: akClosure, clo: c}
+			}
+			return av{k: akUnknown}
+		case *ssa.Global, *ssa.Builtin:
 			return av{k: akUnknown}
 		}
 		if x, ok := env[v]; ok {
@@ -350,6 +368,12 @@ func (it *ainterp) call(fn *ssa.Function, args []av, depth int) []av {
 				}
 			case *ssa.Call:
 				env[x] = it.doCall(x, val, depth)
+			case *ssa.MakeClosure:
+				cl := av{k: akClosure, clo: x.Fn.(*ssa.Function)}
+				for _, bv := range x.Bindings {
+					cl.cbind = append(cl.cbind, val(bv))
+				}
+				env[x] = cl
 			case *ssa.If:
 				c := val(x.Cond)
 				if c.k != akBool {
@@ -482,9 +506,35 @@ func (it *ainterp) doCall(c *ssa.Call, val func(ssa.Value) av, depth int) av {
 		return av{}
 	}
 	f := c.Call.StaticCallee()
+	if f == nil && !c.Call.IsInvoke() {
+		// a call of a function value: a function literal made in the code under interpretation
+		if cv := val(c.Call.Value); cv.k == akClosure && cv.clo != nil {
+			var args []av
+			for _, a := range c.Call.Args {
+				args = append(args, val(a))
+			}
+			res := it.callBound(cv.clo, args, cv.cbind, depth+1)
+			if len(res) == 1 {
+				return res[0]
+			}
+			return av{k: akTuple, tup: res}
+		}
+	}
 	if f == nil {
 		it.fail("dynamic call")
 		return av{}
+	}
+	// the generic helpers of package slices are plain loops over their arguments: interpreted like package code
+	if f.Blocks != nil && f.Origin() != nil && f.Origin().Pkg != nil && f.Origin().Pkg.Pkg.Path() == "slices" {
+		var args []av
+		for _, a := range c.Call.Args {
+			args = append(args, val(a))
+		}
+		res := it.call(f, args, depth+1)
+		if len(res) == 1 {
+			return res[0]
+		}
+		return av{k: akTuple, tup: res}
 	}
 	switch it.p.qualName(f) {
 	case "bytes.Compare":
